@@ -69,7 +69,7 @@ var spec3 = []specKind{
 	{"mediaType", "/paths/~1p/get/requestBody/content/application~1x-www-form-urlencoded", nil, []specField{{"schema", m("type", "object", "properties", m("a", strSchema))}, {"example", m("a", "x")}, {"examples", m("e", m("value", m("a", "x")))}, {"encoding", m("a", m("style", "form"))}}},
 	{"encoding", "/paths/~1p/get/requestBody/content/multipart~1form-data/encoding/a", nil, []specField{{"contentType", "text/plain"}, {"headers", m("X-H", m("schema", strSchema))}, {"style", "form"}, {"explode", true}, {"allowReserved", true}}},
 	{"responses", "/paths/~1p/get/responses", nil, []specField{{"default", m("description", "d")}, {"200", m("description", "ok")}, {"4XX", m("description", "c")}}},
-	{"response", "/paths/~1p/get/responses/200", []specField{{"description", "ok"}}, []specField{{"headers", m("X-H", m("schema", strSchema))}, {"content", m("text/plain", m("schema", strSchema))}, {"links", m("l", m("operationId", "o"))}}},
+	{"response", "/paths/~1p/get/responses/200", []specField{{"description", "ok"}}, []specField{{"headers", m("X-H", m("schema", strSchema), "Content-Type", m("schema", strSchema), "accept", m("description", "a header with the name of a request header"))}, {"content", m("text/plain", m("schema", strSchema))}, {"links", m("l", m("operationId", "o"))}}},
 	{"example", "/components/examples/E", nil, []specField{{"summary", "s"}, {"description", "d"}, {"value", m("a", l(1.0, "x"))}, {"externalValue", "https://e.example/v"}}},
 	{"link", "/components/links/L", nil, []specField{{"operationRef", "#/paths/~1p/get"}, {"operationId", "o"}, {"parameters", m("q", "$request.path.id")}, {"requestBody", m("a", 1.0)}, {"description", "d"}, {"server", m("url", "/l")}}},
 	{"header", "/components/headers/H", nil, []specField{{"description", "d"}, {"required", true}, {"deprecated", true}, {"allowEmptyValue", true}, {"style", "simple"}, {"explode", true}, {"allowReserved", true},
